@@ -8,6 +8,12 @@ claim("C14", "ESP path simulation of the retry loop and the attempt function + C
 claim("C15", "flag-sensitive ESP reachability of effect events + who-may-call closure scan + store/address-taken scan + flag-wiring slice",
       "Decides that no workspace/VCS effect call is reachable on any path where DryRun may be true, that no key/CA/VCS call is reachable where MeasurementOnly may be true or from the measurement computation at all, that both flags are immutable after registration and wired to the installed Context, and that printed and signed measurements come from one computation.",
       "DESIGN.md §3 C15")
+claim("C11", "ESP path simulation of gcsca.Finalize (write-order automaton) + who-may-call ownership scan + effect scan of the mutation type",
+      "Decides for every path of the storage-backed Finalize (every upload order, every failing write) that no object is written after the manifest, that the manifest is not written after a failed upload, that manifest entries are appended only after the gated upload of the very object they name, that only the no-clobber gate and the manifest writer write to storage and only on behalf of Finalize, and that the mutation object has no persistent effect. Object-granularity crash prefixes are exactly the positions between these write events.",
+      "DESIGN.md §3 C11")
+claim("C13", "ESP path simulation (existence-probe / overwrite-permission gate before endorsement writes; endorsement before manifest) + backward slices of manifest-entry fields",
+      "Partial: decides the overwrite gate on every path to an endorsement-file write, that the manifest entry names the file just written and the SHA-384 of the supplied image, and file-before-manifest ordering. The four-way merge keeping path/digest uniqueness over histories is not decided. One known finding (snapshot mode writes <fw>.signed ungated).",
+      "DESIGN.md §3 C13")
 PENDING = "static rules designed in DESIGN.md §3 but not implemented yet in this revision; not claimed until the rule set lands"
-for p in ["C01","C02","C03","C04","C05","C06","C07","C08","C09","C11","C12","C13","C16","C17","C18","C19","C20"]:
+for p in ["C01","C02","C03","C04","C05","C06","C07","C08","C09","C12","C16","C17","C18","C19","C20"]:
     na(p, PENDING)
